@@ -654,3 +654,45 @@ def page_report(ctx, rr):
     rr.ob(ctx.where(ia), 'merging reports adds the created-page counters', ok=ok)
     if not ok:
         rr.fail(ctx.finding('R-PAGE-REPORT', ia, ia.node, 'merging write reports no longer adds nb_created_pages', stmt='report merge'))
+
+
+@rule('R-MONOTONE-POINTERS')
+def monotone_pointers(ctx, rr):
+    """left/right/child/parent pointers are append-only: written only by the two allocation functions and only into an empty
+    slot (or into a node created on the same path), so a stored LRU never becomes unreachable"""
+    P = ctx.P
+    setters = ('set_left', 'set_right', 'set_child', 'set_parent')
+    allowed = {'LRUTrie.__ensure_stem_from_siblings', 'LRUTrie.add_lru'}
+    n = 0
+    for u in P.units:
+        if u.cls == TRIE_NODE:
+            continue
+        for c in P.own(u, ast.Call):
+            if isinstance(c.func, ast.Attribute) and c.func.attr in setters and any(t.cls == TRIE_NODE for t in P.targets(c)):
+                n += 1
+                ok = u.qual in allowed
+                rr.ob(ctx.where(u, c), 'structural pointer `%s` is written by an allocation function' % ast.unparse(c)[:50], ok=ok)
+                if not ok:
+                    rr.fail(ctx.finding('R-MONOTONE', u, c, 'a left/right/child/parent pointer is rewritten outside the insert path: existing subtrees can '
+                                        'become unreachable'))
+    if n < 5:
+        raise AnalysisError('R-MONOTONE-POINTERS: structural pointer stores not found')
+    al = P.method('LRUTrie', 'add_lru')
+    rows = tables(ctx, al, iters=2 if ctx.tier == 'thorough' else 1, keep=lambda nm, c: nm in ('set_child', 'has_child', 'node', 'read_child', '__ensure_stem_from_siblings'))
+    bad = []
+    n_sc = 0
+    for r in rows:
+        for e in r.calls('set_child'):
+            n_sc += 1
+            i = first_idx(r, lambda x: x is e)
+            sets = [x for x in r.events[:i] if x.kind == 'set' and x.name == e.var]
+            fresh = bool(sets) and ('stem=' in sets[-1].args[0] or any(y.kind == 'set' and y.name == sets[-1].args[0].split('#')[0] and 'stem=' in y.args[0] for y in r.events[:i]))
+            hv = r.val.get('%s.has_child()' % e.recv)
+            if not fresh and hv is not False:
+                bad.append((r, e))
+    rr.ob(ctx.where(al), 'add_lru links a child only below a node whose child slot is empty or that was created on this path (%d set_child rows)' % n_sc, ok=not bad)
+    for r, e in bad:
+        rr.fail(ctx.finding('R-MONOTONE', al, e.node, 'add_lru overwrites the child pointer of a node that may already have children: the existing subtree becomes '
+                            'unreachable', detail={'row': r.show()[:500]}))
+    if n_sc < 1:
+        raise AnalysisError('R-MONOTONE-POINTERS: no set_child row in add_lru')
